@@ -8,6 +8,7 @@ import (
 	"time"
 
 	"verif/shim/vclock"
+	"verif/shim/vsched"
 )
 
 func Now() time.Time                  { return vclock.Now() }
@@ -18,6 +19,9 @@ func Until(t time.Time) time.Duration { return t.Sub(vclock.Now()) }
 // harness added) has passed the deadline, so a harness that lets virtual time pass (vclock.Advance) makes
 // time-outs in the code under test fire without waiting for them in real time.
 func After(d time.Duration) <-chan time.Time {
+	if vsched.Active() {
+		return NewTimer(d).C
+	}
 	ch := make(chan time.Time, 1)
 	deadline := vclock.Now().Add(d)
 	go func() {
@@ -33,4 +37,84 @@ func After(d time.Duration) <-chan time.Time {
 	return ch
 }
 
-func Sleep(d time.Duration) { <-After(d) }
+func Sleep(d time.Duration) {
+	if vsched.Active() {
+		vsched.ChanRecv(NewTimer(d).C)
+		return
+	}
+	<-After(d)
+}
+
+// Timer stands in for time.Timer. Inside a controlled execution (vsched) it is a deadline of the execution: it
+// fires when nothing else can move (earliest deadline first), the function of AfterFunc then runs as a thread of
+// its own, exactly as the runtime would run it in a goroutine of its own. Outside a controlled execution it is
+// a real timer.
+type Timer struct {
+	C  <-chan time.Time
+	c  chan time.Time
+	f  func()
+	vt *vsched.Timer
+	rt *time.Timer
+}
+
+func (t *Timer) arm(d time.Duration) {
+	if !vsched.Active() {
+		if t.f != nil {
+			t.rt = time.AfterFunc(d, t.f)
+		} else {
+			t.rt = time.AfterFunc(d, func() {
+				select {
+				case t.c <- vclock.Now():
+				default:
+				}
+			})
+		}
+		return
+	}
+	due := vclock.Now().Add(d).UnixNano()
+	if t.f != nil {
+		f := t.f
+		t.vt = vsched.AddTimer(due, "timer-func", func() { vsched.SpawnAtFire("timer-func", f) })
+		return
+	}
+	t.vt = vsched.AddTimer(due, "timer", func() {
+		select {
+		case t.c <- vclock.Now():
+		default:
+		}
+	})
+}
+
+func (t *Timer) disarm() bool {
+	switch {
+	case t.vt != nil:
+		was := t.vt.Pending()
+		t.vt.Cancel()
+		t.vt = nil
+		return was
+	case t.rt != nil:
+		return t.rt.Stop()
+	}
+	return false
+}
+
+func AfterFunc(d time.Duration, f func()) *Timer {
+	t := &Timer{f: f}
+	t.arm(d)
+	return t
+}
+
+func NewTimer(d time.Duration) *Timer {
+	c := make(chan time.Time, 1)
+	t := &Timer{C: c, c: c}
+	t.arm(d)
+	return t
+}
+
+func (t *Timer) Stop() bool { return t.disarm() }
+
+func (t *Timer) Reset(d time.Duration) bool {
+	was := t.disarm()
+	t.arm(d)
+	return was
+}
